@@ -1,3 +1,79 @@
 (* C34 - proofs about Core/Model_RowIdIndex.v *)
 From LanceV Require Import Common.Base Core.Model_RowIds Core.Proofs_RowIds Core.Model_RowIdIndex.
 Local Open Scope N_scope.
+
+(* What RowIdIndex::get needs from the chunk list built by RowIdIndex::new. *)
+Definition chunk_ok (c : chunk) : Prop :=
+  seg_wf (fst (snd c)) = true /\ seg_wf (snd (snd c)) = true
+  /\ len_N (seg_iter (fst (snd c))) = len_N (seg_iter (snd (snd c)))
+  /\ NoDup (seg_iter (fst (snd c)))
+  /\ forall v, In v (seg_iter (fst (snd c))) -> c_lo c <= v <= c_hi c.
+
+Fixpoint disjoint_chunks (idx : list chunk) : Prop :=
+  match idx with
+  | [] => True
+  | c :: r => (forall c', In c' r -> c_hi c < c_lo c' \/ c_hi c' < c_lo c) /\ disjoint_chunks r
+  end.
+
+Definition chunk_pairs (c : chunk) : list (N * N) := combine (seg_iter (fst (snd c))) (seg_iter (snd (snd c))).
+Definition index_pairs (idx : list chunk) : list (N * N) := flat_map chunk_pairs idx.
+
+Lemma combine_nth : forall (l a : list N) i x y, nth_N l i = Some x -> nth_N a i = Some y -> In (x, y) (combine l a).
+Proof.
+  induction l as [|x0 l IH]; intros a i x y Hl Ha; [unfold nth_N in Hl; destruct (N.to_nat i); discriminate|].
+  destruct a as [|y0 a]; [unfold nth_N in Ha; destruct (N.to_nat i); discriminate|].
+  destruct (N.eqb_spec i 0) as [-> | Hi].
+  - rewrite nth_N_0 in Hl, Ha. inversion Hl; inversion Ha; subst. left. reflexivity.
+  - rewrite nth_N_pos in Hl, Ha by lia. right. eapply IH; eauto.
+Qed.
+
+Lemma combine_In_nth : forall (l a : list N) x y, In (x, y) (combine l a) ->
+  exists i, nth_N l i = Some x /\ nth_N a i = Some y.
+Proof.
+  induction l as [|x0 l IH]; intros a x y H; [destruct H|]. destruct a as [|y0 a]; [destruct H|].
+  destruct H as [H | H].
+  - inversion H; subst. exists 0. split; reflexivity.
+  - destruct (IH a x y H) as [i [H1 H2]]. exists (i + 1). rewrite !nth_N_succ. split; assumption.
+Qed.
+
+Lemma NoDup_index_of : forall l i x, NoDup l -> nth_N l i = Some x -> index_of x l = Some i.
+Proof.
+  induction l as [|x0 l IH]; intros i x Hnd Hn; [unfold nth_N in Hn; destruct (N.to_nat i); discriminate|].
+  inversion Hnd; subst. rewrite index_of_cons. destruct (N.eqb_spec i 0) as [-> | Hi].
+  - rewrite nth_N_0 in Hn. inversion Hn; subst. rewrite N.eqb_refl. reflexivity.
+  - rewrite nth_N_pos in Hn by lia. destruct (N.eqb_spec x x0) as [-> | Hne].
+    + exfalso. apply H1. unfold nth_N in Hn. eapply nth_error_In; eauto.
+    + rewrite (IH (i - 1) x H2 Hn). f_equal. lia.
+Qed.
+
+Lemma chunk_get_spec : forall c id addr, chunk_ok c ->
+  (match seg_position (fst (snd c)) id with None => None | Some pos => seg_get (snd (snd c)) pos end) = Some addr
+  <-> In (id, addr) (chunk_pairs c).
+Proof.
+  intros c id addr [Hw1 [Hw2 [Hlen [Hnd Hb]]]]. unfold chunk_pairs.
+  rewrite seg_position_iter by assumption. split.
+  - destruct (index_of id (seg_iter (fst (snd c)))) as [pos|] eqn:E; [|discriminate]. intro Hg.
+    rewrite seg_get_iter in Hg by assumption. apply index_of_some_nth in E. eapply combine_nth; eauto.
+  - intro Hin. apply combine_In_nth in Hin as [i [H1 H2]]. rewrite (NoDup_index_of _ i id Hnd H1).
+    rewrite seg_get_iter by assumption. assumption.
+Qed.
+
+Theorem index_get_spec : forall idx, Forall chunk_ok idx -> disjoint_chunks idx ->
+  forall id addr, index_get idx id = Some addr <-> In (id, addr) (index_pairs idx).
+Proof.
+  induction idx as [|c idx IH]; intros Hok Hdis id addr.
+  - cbn. split; [discriminate | intros []].
+  - inversion Hok as [|? ? Hc Hrest]; subst. destruct Hdis as [Hd1 Hd2].
+    unfold index_get, index_pairs in *. cbn [find flat_map]. rewrite in_app_iff.
+    destruct ((c_lo c <=? id) && (id <=? c_hi c)) eqn:Er.
+    + apply andb_true_iff in Er as [Er1 Er2]. apply N.leb_le in Er1, Er2.
+      rewrite chunk_get_spec by assumption. split; [intro; left; assumption|].
+      intros [H | H]; [assumption|]. exfalso.
+      apply in_flat_map in H as [c' [Hc' Hp]]. rewrite Forall_forall in Hrest. specialize (Hrest c' Hc').
+      destruct Hrest as [_ [_ [_ [_ Hb']]]]. unfold chunk_pairs in Hp. apply in_combine_l in Hp. specialize (Hb' id Hp).
+      destruct (Hd1 c' Hc'); lia.
+    + rewrite (IH Hrest Hd2 id addr). split; [intro; right; assumption|].
+      intros [H | H]; [|assumption]. exfalso. destruct Hc as [_ [_ [_ [_ Hb]]]].
+      unfold chunk_pairs in H. apply in_combine_l in H. specialize (Hb id H).
+      apply andb_false_iff in Er as [Er | Er]; [apply N.leb_gt in Er | apply N.leb_gt in Er]; lia.
+Qed.
